@@ -87,16 +87,24 @@ def check_byteslike(col):
                 x = wrap(eval(src))  # noqa: S307
                 col.ev()
                 col.nt(f"byteslike|{expr}|{src}")
-                k, r = tl.call(tl.unmarshal, T, x)
-                if k == "exc":
-                    col.label("outcome:raised")
-                    continue
-                col.label("outcome:returned")
-                ls = leaves(r)
-                bad = "wrong container" if ls is None else next((f"{v!r} is {type(v).__name__}, not {tname}" for v in ls if not isinstance(v, t)), None)
-                if bad:
-                    col.violation("conforms", {"byteslike": True, "T": expr, "input": src},
-                                  f"unmarshal({expr}, {src} in that shape) returned {r!r:.100}: {bad}", bucket=f"byteslike|{tname}|{type(eval(src)).__name__}")  # noqa: S307
+                routes = [("unmarshal", lambda: tl.unmarshal(T, x)), ("unmarshaller", lambda: tl.unmarshaller(T)(x))]
+                if expr == tname and isinstance(x, (bytes, bytearray, memoryview)):
+                    # a bytes-like root is its own wire format: the decode routes hand the payload to the same unmarshaller
+                    routes += [("typelib.decode", lambda: tl.typelib.decode(T, x)), ("codec.decode", lambda: tl.codec(T).decode(x)),
+                               ("typelib.decode(Final)", lambda: tl.typelib.decode(typing.Final[T], x)),
+                               ("typelib.decode(NewType)", lambda: tl.typelib.decode(typing.NewType("Blob", T), x))]
+                for route, f in routes:
+                    k, r = tl.call(f)
+                    col.label("route:" + route)
+                    if k == "exc":
+                        col.label("outcome:raised")
+                        continue
+                    col.label("outcome:returned")
+                    ls = leaves(r)
+                    bad = "wrong container" if ls is None else next((f"{v!r} is {type(v).__name__}, not {tname}" for v in ls if not isinstance(v, t)), None)
+                    if bad:
+                        col.violation("conforms", {"byteslike": True, "T": expr, "input": src, "route": route},
+                                      f"{route}({expr}, {src} in that shape) returned {r!r:.100}: {bad}", bucket=f"byteslike|{route}|{tname}|{type(eval(src)).__name__}")  # noqa: S307
     col.exhaustive_done = True
 
 
@@ -150,6 +158,31 @@ def check_mapping_text(col):
     col.exhaustive_done = True
 
 
+def check_raw_instances(p, vs, col):
+    """instances of the root class (or containers of them) whose members still hold wire values - constructors do not validate -
+    given to every route: what comes back must conform, member by member"""
+    s_ = U.strip(p.spec)
+    if not U.has_kind(s_, "class") or vs is None:
+        return
+    for _ in range(2):
+        v = p.draw(vs)
+        try:
+            w = U.plain_wire(p.spec, v, p.mat)
+            raw = U.instance_from_wire(p.spec, w, p.mat)
+        except Exception:
+            return
+        for route, f in (("function", lambda: tl.unmarshal(p.T, raw)), ("routine", lambda: tl.unmarshaller(p.T)(raw)), ("codec-unmarshal", lambda: tl.codec(p.T).unmarshal(raw))):
+            col.ev()
+            col.label("input:instances-holding-wire-values")
+            k, r = tl.call(f)
+            if k == "exc":
+                continue
+            e = U.conforms(p.spec, r, p.mat)
+            if e:
+                col.violation("conforms", p.case(value=p.src(v), raw_instances=True, route=route),
+                              f"{route}: unmarshal({p.mat.root_expr}, <instances holding wire values>) returned {r!r:.160}: {e}", bucket=f"raw-instances|{route}")
+
+
 def per_program(p):
     if p.data is not None and p.draw(st.integers(0, 2)) == 0:
         p.warm("marshaller")   # the routines of the other direction built first
@@ -157,6 +190,7 @@ def per_program(p):
         vs = U.values(p.spec, p.mat, max_elems=3)
     except U._Exhausted:
         vs = None
+    check_raw_instances(p, vs, p.col)
     strat = inputs.any_input(p, vs)
     for _ in range(25):
         src, kind = p.draw(strat)
